@@ -259,7 +259,7 @@ func stringBytes(s *Stream) ([]byte, error) {
 			s.buf = append(append(append([]byte{}, s.buf[:cursor]...), runeErrBytes...), s.buf[cursor+1:]...)
 			_, _, p = s.stat()
 			cursor += runeErrBytesLen
-			s.length += runeErrBytesLen
+			s.length += runeErrBytesLen - 1 // one byte became three
 			continue
 		case nul:
 			s.cursor = cursor
@@ -290,7 +290,7 @@ func stringBytes(s *Stream) ([]byte, error) {
 			if r == utf8.RuneError {
 				s.buf = append(append(append([]byte{}, s.buf[:cursor]...), runeErrBytes...), s.buf[cursor+1:]...)
 				cursor += runeErrBytesLen
-				s.length += runeErrBytesLen
+				s.length += runeErrBytesLen - 1 // one byte became three
 				_, _, p = s.stat()
 			} else {
 				cursor += int64(size)
